@@ -14,6 +14,7 @@
 #include "verif_hooks.h"
 #include "zobrist_hash.h"
 
+#include <atomic>
 #include <condition_variable>
 #include <mutex>
 #include <random>
@@ -55,7 +56,8 @@ static const char* ARENAS[] = {"8/8/8/3k4/8/3K4/3P4/8 w - - 0 1",
 static const char* ARENA = ARENAS[0];
 
 static const char* PNAME[] = {"SEARCH_STOP", "GO_ENTER", "GO_INIT_DONE", "GO_RESET_DONE", "GO_BESTMOVE", "ITER_START", "NODE", "QNODE",
-                              "UCI_LINE", "UCI_GO_SPAWNED", "THREAD_START", "THREAD_END", "FLAG_LOAD", "FLAG_STORE"};
+                              "UCI_LINE", "UCI_GO_SPAWNED", "THREAD_START", "THREAD_END", "FLAG_LOAD", "FLAG_STORE", "IO_LOCKED", "IO_UNLOCKING", "OUTPUT"};
+static const int POINT_OUTPUT = 16;   // harness-local: a write to std::cout (either thread)
 
 // ------------------------------------------------------------------ scheduler (child process only)
 struct Th
@@ -71,8 +73,16 @@ static thread_local int t_role = 0;
 static std::string g_trace, g_u_line;
 static bool g_want_trace = false;
 
+static std::atomic<int> g_io_owner{0};   // which role holds the engine's output lock (0 = nobody)
+
 static void hook(int point, void*, const void* a, const void*)
 {
+    if (point == verif::IO_LOCKED || point == verif::IO_UNLOCKING)
+    {
+        // notifications, not schedule points
+        g_io_owner = point == verif::IO_LOCKED ? (t_role == 1 ? 1 : 2) : 0;
+        return;
+    }
     std::unique_lock<std::mutex> lk(g_m);
     if (t_role == 0)
     {
@@ -87,6 +97,25 @@ static void hook(int point, void*, const void* a, const void*)
     g_cv.wait(lk, [&] { return me.granted; });
     me.granted = false;
 }
+
+// std::cout of the child: every write is a schedule point, so the reader thread's `readyok` can be
+// placed between two pieces of an `info` line the search thread is printing
+struct HookedBuf : std::streambuf
+{
+    std::string data;
+    int_type overflow(int_type c) override
+    {
+        if (verif::point_cb && t_role != 1) verif::point_cb(POINT_OUTPUT, nullptr, nullptr, nullptr);
+        if (c != traits_type::eof()) data += char(c);
+        return c;
+    }
+    std::streamsize xsputn(const char* p, std::streamsize n) override
+    {
+        if (verif::point_cb && t_role != 1) verif::point_cb(POINT_OUTPUT, nullptr, nullptr, nullptr);
+        data.append(p, size_t(n));
+        return n;
+    }
+};
 
 enum WaitResult { PARKED, FINISHED, TIMEOUT };
 // bounded wait on the REAL clock (system_clock is not interposed): used to notice that a thread is
@@ -141,14 +170,16 @@ static WaitResult step(int role)
         g_th[2].finished = true;
         return FINISHED;
     }
-    return wait_parked_grace(role, 1500);
+    // a reader thread that needs the output lock while the parked search thread holds it blocks at once:
+    // no point in waiting long for it (it parks within microseconds when it does not block)
+    return wait_parked_grace(role, role == 1 && g_io_owner.load() == 2 ? 40 : 1500);
 }
 
 struct ChildResult
 {
     std::string verdict;  // ok | stop_lost | blocked:<who> | ...
     std::string output, trace;
-    long long s_steps_after_stop = -1, s_total = 0;
+    long long s_steps_after_stop = -1, s_total = 0, reader_waits = 0;
 };
 
 // runs in the forked child; a, b = number of S steps before U's stop-flag step and before U's last step
@@ -158,7 +189,7 @@ static void child_main(Uci& uci, const std::vector<std::string>& script, int a, 
     std::string text;
     for (auto& l : script) text += l + "\n";
     std::istringstream in(text);
-    std::stringbuf outbuf;
+    HookedBuf outbuf;
     std::cin.rdbuf(in.rdbuf());
     std::cout.rdbuf(&outbuf);
     verif::point_cb = hook;
@@ -172,6 +203,7 @@ static void child_main(Uci& uci, const std::vector<std::string>& script, int a, 
     });
     U.detach();
     std::string verdict = "ok";
+    int reader_waits = 0;
     long long after_stop = -1;
     bool stop_done = false, best_seen = false;
     auto fail = [&](const std::string& v) { verdict = v; };
@@ -217,24 +249,22 @@ static void child_main(Uci& uci, const std::vector<std::string>& script, int a, 
         bool in_stop_cmd = false;
         while (verdict == "ok")
         {
-            WaitResult wu = wait_parked_grace(1, 1500);
+            WaitResult wu = wait_parked_grace(1, g_io_owner.load() == 2 ? 40 : 1500);
             if (wu == TIMEOUT)
             {
-                // the reader thread is blocked (e.g. on the output lock) while the search thread is parked:
-                // not a deadlock yet - let the search thread run on and see whether the reader gets free
-                bool freed = false;
-                for (int i = 0; i < 100000 && !freed; ++i)
+                if (g_io_owner.load() == 2 && !g_th[2].finished)
                 {
-                    if (!s_step()) break;
-                    std::unique_lock<std::mutex> lk(g_m);
-                    freed = g_th[1].parked || g_th[1].finished;
+                    // the reader thread waits for the output lock held by the parked search thread: run the
+                    // search thread on until it lets go of the lock, then look at the reader again
+                    ++reader_waits;
+                    while (verdict == "ok" && g_io_owner.load() == 2 && s_step()) {}
+                    continue;
                 }
-                if (!freed && wait_parked_grace(1, 1500) == TIMEOUT)
+                if (wait_parked_grace(1, 3000) == TIMEOUT)
                 {
                     fail("deadlock:reader_thread_blocked_forever");
                     break;
                 }
-                R.count("schedules_where_reader_waited_for_search_thread");
                 continue;
             }
             if (wu == FINISHED) break;
@@ -289,10 +319,11 @@ static void child_main(Uci& uci, const std::vector<std::string>& script, int a, 
     std::string res = "verdict " + verdict + "\n";
     res += "after_stop " + std::to_string(after_stop) + "\n";
     res += "s_total " + std::to_string(g_th[2].steps) + "\n";
+    res += "reader_waits " + std::to_string(reader_waits) + "\n";
     res += "trace " + g_trace + "\n";
     {
         std::unique_lock<std::mutex> lk(g_m);   // output buffer is only touched by parked threads now
-        res += "output\n" + outbuf.str();
+        res += "output\n" + outbuf.data;
     }
     size_t off = 0;
     while (off < res.size())
@@ -341,6 +372,7 @@ static ChildResult run_schedule(Uci& uci, const std::vector<std::string>& script
         if (l.rfind("verdict ", 0) == 0) r.verdict = l.substr(8);
         else if (l.rfind("after_stop ", 0) == 0) r.s_steps_after_stop = atoll(l.c_str() + 11);
         else if (l.rfind("s_total ", 0) == 0) r.s_total = atoll(l.c_str() + 8);
+        else if (l.rfind("reader_waits ", 0) == 0) r.reader_waits = atoll(l.c_str() + 13);
         else if (l.rfind("trace ", 0) == 0) r.trace = l.substr(6);
         else if (l == "output")
         {
@@ -370,7 +402,7 @@ static void judge(const std::string& sname, int a, int b, int bound, const Child
         return mc::JObj().s("script", sname).n("arena", ARENA == ARENAS[1] ? 2 : 1).n("a", a).n("b", b).n("bound", bound).s("verdict", r.verdict).n("search_steps_after_stop", r.s_steps_after_stop)
             .n("search_steps_total", r.s_total).s("output", r.output.size() > 600 ? r.output.substr(r.output.size() - 600) : r.output);
     };
-    int best = 0, ready = 0;
+    int best = 0, ready = 0, garbled = 0;
     std::string bm;
     std::istringstream is(r.output);
     std::string l;
@@ -384,6 +416,7 @@ static void judge(const std::string& sname, int a, int b, int bound, const Child
             s >> x >> bm;
         }
         if (l == "readyok") ++ready;
+        else if (l.find("readyok") != std::string::npos) ++garbled;
     }
     std::string where = a == 0 ? "before_thread_runs" : a <= 3 ? "during_go_startup" : "during_search";
     if (r.verdict == "stop_lost_or_not_prompt")
@@ -395,7 +428,8 @@ static void judge(const std::string& sname, int a, int b, int bound, const Child
     else
     {
         if (best != 1) R.violation("C06:bestmove_count_" + std::to_string(best) + ":" + where, w());
-        if (ready != 1) R.violation("C06:readyok_count_" + std::to_string(ready), w());
+        if (garbled) R.violation("C06:readyok_inside_another_output_line", w());
+        else if (ready != 1) R.violation("C06:readyok_count_" + std::to_string(ready), w());
         ref::Mv m;
         std::vector<ref::Mv> lm;
         ref::gen_legal(root, lm);
@@ -405,6 +439,7 @@ static void judge(const std::string& sname, int a, int b, int bound, const Child
         (void)m;
         if (best == 1 && !legal) R.violation("C06:illegal_bestmove_after_stop:" + where, w().s("bestmove", bm));
     }
+    if (r.reader_waits) R.count("schedules_where_reader_waited_for_output_lock");
     R.outcome(r.verdict + "/" + std::to_string(r.s_steps_after_stop > 20 ? 99 : r.s_steps_after_stop) + "/" + bm);
     if (r.s_steps_after_stop > (long long)R.counters["max_steps_after_stop"]) R.counters["max_steps_after_stop"] = uint64_t(r.s_steps_after_stop);
 }
